@@ -55,7 +55,8 @@ THEOREMS = ['C07_plane_intersection_on_both', 'C07_plane_intersection_direction'
             'C07_sort_sides_outcomes', 'C07_base_vectors_parallel_planes',
             'C07_collinear_sides_parallel', 'C07_walk_ends_iff_closed_tour',
             'C07_sort_count_error', 'C07_rhp_is_C03_rhp_linked',
-            'C07_develop_lattice_hex_is_tied', 'C07_caps_parallel_to_axis']
+            'C07_develop_lattice_hex_is_tied', 'C07_caps_parallel_to_axis',
+            'C07_flipped_sense_lattice_error']
 TRUSTED = [
     'hand-written model coq/C07/Model.v (modelled, tied by execution only)',
     'binary64 evaluation: the theorems are over R; the model is run at '
